@@ -85,6 +85,17 @@ def annotations(fn):
       row += [None, None, None]
     else:
       row += [tuple(sorted(str(q) for q in sc.read)), tuple(sorted(str(q) for q in sc.modified)), tuple(sorted(str(q) for q in sc.bound))]
+    dv = anno.getanno(n, anno.Static.DEFINED_VARS_IN, None)
+    row.append(None if dv is None else tuple(sorted(str(q) for q in dv)))
+    # how many definitions reach each name the statement loads (reaching definitions, C06)
+    nd = []
+    for x in ast.walk(n):
+      if isinstance(x, ast.stmt) and x is not n:
+        continue
+      if isinstance(x, ast.Name) and isinstance(x.ctx, ast.Load):
+        ds = anno.getanno(x, anno.Static.DEFINITIONS, None)
+        nd.append((x.id, None if ds is None else len(ds)))
+    row.append(tuple(nd))
     out.append(tuple(row))
   return out
 
@@ -119,10 +130,10 @@ def check_reanalysis(item):
   if len(again) != len(fresh):
     viol.append(('reanalysis-shape', 're-analysed tree has %d statements, the fresh parse of the edited program %d' % (len(again), len(fresh))))
   else:
-    labels = ('live-in', 'live-out', 'scope.read', 'scope.modified', 'scope.bound')
+    labels = ('live-in', 'live-out', 'scope.read', 'scope.modified', 'scope.bound', 'defined-in', 'definitions')
     for k, (a, b) in enumerate(zip(again, fresh)):
       if a != b:
-        j = [i for i in range(1, 6) if a[i] != b[i]]
+        j = [i for i in range(1, 8) if a[i] != b[i]]
         which = labels[j[0] - 1] if j else 'node'
         viol.append(('reanalysis-' + which.split('.')[0], 'statement %d (%s) of the edited program: %s after re-analysis of the edited tree is %r, a fresh analysis gives %r\nedited program:\n%s' % (
             k, a[0], which, a[j[0]] if j else a, b[j[0]] if j else b, edited)))
